@@ -15,6 +15,7 @@ from __future__ import annotations
 
 import io
 import os
+import re
 import random
 import shutil
 import tempfile
@@ -46,7 +47,7 @@ ASSUMPTIONS = [
 ]
 MIN_DISTINCT = {"quick": 15000, "thorough": 250000}
 TIME = {"quick": 45, "thorough": 600}
-SOURCES = ["bytes", "str", "path", "filename", "fileobj", "lxml-tree", "lxml-element", "et-tree", "et-element"]
+SOURCES = ["bytes", "str", "path", "filename", "fileobj", "lxml-tree", "lxml-element", "et-tree", "et-element", "lxml-inner-element", "et-inner-element"]
 
 
 def marks_for(loaded, obj, cfg, xml):
@@ -155,6 +156,19 @@ def parse_source(data: bytes, clazz, handler, kind, tmpdir):
             return p.parse(ET.ElementTree(ET.fromstring(data)), clazz)
         if kind == "et-element":
             return p.parse(ET.fromstring(data), clazz)
+        if kind in ("lxml-inner-element", "et-inner-element"):
+            # selective parsing: the document is one element of a larger tree, with siblings and tail text around it
+            if kind.startswith("et-"):
+                # ElementTree elements are plain objects: the parsed root can be hung into another tree as it is
+                outer = ET.fromstring(b"<vf-outer>head<vf-sib/>between<vf-sib/>end</vf-outer>")
+                inner = ET.fromstring(data)
+                inner.tail = "tail text"
+                outer.insert(1, inner)
+                return p.parse(inner, clazz)
+            # lxml moves namespace declarations around when an element changes documents: wrap the serialized root instead
+            body = re.sub(rb"^<\?xml[^>]*\?>\s*", b"", etree.tostring(etree.fromstring(data), encoding="utf-8"))
+            outer = etree.fromstring(b"<vf-outer>head<vf-sib/>" + body + b"tail text<vf-sib/>end</vf-outer>")
+            return p.parse(outer[1], clazz)
     raise KeyError(kind)
 
 
@@ -176,6 +190,13 @@ def check_handlers(ctx, data: bytes, clazz, has_q, utf8_plain, witness, label, m
                     continue
                 if kind == "str" and not utf8_plain:
                     continue
+                if kind.endswith("inner-element"):
+                    try:  # the wrapper document is built by the harness: only from documents both libraries accept as they are
+                        etree.fromstring(data)
+                        ET.fromstring(data)
+                    except Exception:  # noqa: BLE001
+                        ctx.drop("inner-element source: document not well-formed for the tree builders")
+                        continue
                 if kind.startswith("et-") and has_q:
                     ctx.drop("ElementTree source with QName content (documented: prefixes are not kept)")
                     continue
